@@ -245,6 +245,18 @@ func (k Keeper) ValidateFixedPriceBid(ctx context.Context, auction types.Auction
 	return nil
 }
 
+// canConvertWorthAt reports whether a worth bid of the given amount can be converted to a
+// selling amount at the given price without overflowing the decimal type.
+func canConvertWorthAt(amt math.Int, price math.LegacyDec) (ok bool) {
+	defer func() {
+		if r := recover(); r != nil {
+			ok = false
+		}
+	}()
+	_ = math.LegacyNewDecFromInt(amt).QuoTruncate(price)
+	return true
+}
+
 // ValidateBatchWorthBid validates a batch worth bid type.
 func (k Keeper) ValidateBatchWorthBid(ctx context.Context, auction types.AuctionI, bid types.Bid) error {
 	if auction.GetType() != types.AuctionTypeBatch {
@@ -253,6 +265,12 @@ func (k Keeper) ValidateBatchWorthBid(ctx context.Context, auction types.Auction
 
 	if bid.Coin.Denom != auction.GetPayingCoinDenom() {
 		return types.ErrIncorrectCoinDenom
+	}
+
+	// The matching price can be any bid price down to the minimum bid price. A worth bid that
+	// cannot be converted there would make the matching panic while a block is processed.
+	if !canConvertWorthAt(bid.Coin.Amount, auction.(*types.BatchAuction).MinBidPrice) {
+		return sdkerrors.Wrap(errcode.ErrInvalidRequest, "bid amount is too large to be matched at the minimum bid price")
 	}
 
 	allowedBidder, err := k.AllowedBidder.Get(ctx, collections.Join(bid.AuctionId, bid.GetBidder()))
@@ -345,6 +363,10 @@ func (k Keeper) ModifyBid(ctx context.Context, msg *types.MsgModifyBid) error {
 	// Reserve bid amount difference
 	switch bid.Type {
 	case types.BidTypeBatchWorth:
+		// Same bound as for a new worth bid (see ValidateBatchWorthBid)
+		if !canConvertWorthAt(msg.Coin.Amount, auction.(*types.BatchAuction).MinBidPrice) {
+			return sdkerrors.Wrap(errcode.ErrInvalidRequest, "bid amount is too large to be matched at the minimum bid price")
+		}
 		diffReserveCoin := msg.Coin.Sub(bid.Coin)
 		if diffReserveCoin.IsPositive() {
 			if err := k.ReservePayingCoin(ctx, msg.AuctionId, bidder, diffReserveCoin); err != nil {
